@@ -204,6 +204,8 @@ impl Embeddings {
             // tiny absolute scale (a power of two: the result must be the exactly rescaled one): absolute thresholds
             // such as `area > f64::EPSILON` only show when measures are far below 1 in the user's units
             Embedding::new(2f64.powi(-40), [0.0; 3]),
+            // anchor offset by about one to three box widths (anchor arithmetic that is only right at the origin or far from it)
+            Embedding::new(1.0, [1.25 * inp.g[0] as f64, -2.5 * inp.g[1] as f64, 0.75 * inp.g[2] as f64]),
         ];
         if tier == "thorough" {
             v.push(Embedding::new(1e-9, [0.0; 3]));
